@@ -14,7 +14,7 @@
 // value including the PipelineConstants map / of the constants map handed to ProcessOverrides, (c) the output is
 // compared with the output of the same operation on a freshly lowered module (for "po": ProcessOverrides run
 // IN PLACE on a freshly lowered module, then that one back end alone), (d) that reference is computed K times
-// on fresh modules and must be the same every time.
+// on fresh modules before the history and once more after it, and must be the same every time.
 // Observables: digests of output bytes / translation info / processed module; failures are "ERR"/"PANIC".
 package main
 
@@ -287,10 +287,16 @@ func doPConst(j *job, res map[string]any) {
 
 	// reference of one operation: on a freshly lowered module, K times
 	refOut := map[string]string{}
+	type refRun struct {
+		key string
+		run func(m *ir.Module) string
+	}
+	var refRuns []refRun
 	reference := func(key string, run func(m *ir.Module) string) string {
 		if r, ok := refOut[key]; ok {
 			return r
 		}
+		refRuns = append(refRuns, refRun{key, run})
 		first := ""
 		for r := 0; r < repeat; r++ {
 			m, _ := lower(src)
@@ -327,6 +333,7 @@ func doPConst(j *job, res map[string]any) {
 		})
 	}
 
+	probed := map[string]bool{}
 	checkModule := func(si int, label string, before string) bool {
 		after := hashValue(mod)
 		if after == before {
@@ -334,12 +341,20 @@ func doPConst(j *job, res map[string]any) {
 		}
 		paths := diffValues(ref, mod, 400)
 		ent := map[string]any{"step": si, "label": label, "kind": "module-mutated", "classes": classesOf(paths), "sites": sitesOf(paths)}
+		byClass := map[string][]string{}
+		for _, p := range paths {
+			if c := mutationClass(site(p)); len(byClass[c]) < 4 {
+				byClass[c] = append(byClass[c], p)
+			}
+		}
+		ent["class_paths"] = byClass
 		if len(paths) > 12 {
 			paths = paths[:12]
 		}
 		ent["paths"] = paths
-		if heal {
-			// consequence: which plain back ends now give another output on the altered module
+		if heal && !probed[label] {
+			// consequence (once per kind of operation): which plain back ends now give another output on the altered module
+			probed[label] = true
 			var changed []string
 			for _, u := range allTargets {
 				want := reference(u+" -", func(m *ir.Module) string { o, _ := runTarget(u, m, nil); return o })
@@ -348,12 +363,32 @@ func doPConst(j *job, res map[string]any) {
 				}
 			}
 			ent["outputs_changed_afterwards"] = changed
+		}
+		if heal {
 			mod, _ = lower(src)
 		}
 		bad = append(bad, ent)
 		return false
 	}
 
+	// All references are computed BEFORE the history runs (in the order of the operations) and once more AFTER it in
+	// reverse order: a reference that changes is state kept by the process (package-level variables, caches), which a
+	// fresh module does not reset.
+	for _, op := range ops {
+		switch op.Via {
+		case "":
+			t := op.T
+			reference(t+" -", func(m *ir.Module) string { o, _ := runTarget(t, m, nil); return o })
+		case "opt":
+			t, pc := op.T, op.PC
+			reference(op.label()+" "+pcText(pc), func(m *ir.Module) string { o, _ := runOpt(t, m, pc); return o })
+		case "po":
+			poRef(op.PC, "")
+			for _, t := range op.Then {
+				poRef(op.PC, t)
+			}
+		}
+	}
 	for si, op := range ops {
 		before := hashValue(mod)
 		intact := before == pristine
@@ -436,6 +471,19 @@ func doPConst(j *job, res map[string]any) {
 				}
 				checkModule(si, label, mb)
 			}
+		}
+	}
+	for i := len(refRuns) - 1; i >= 0; i-- {
+		rr := refRuns[i]
+		if unstableSeen[rr.key] {
+			continue
+		}
+		m, _ := lower(src)
+		if m == nil {
+			continue
+		}
+		if o := rr.run(m); o != refOut[rr.key] {
+			bad = append(bad, map[string]any{"kind": "process-state", "op": rr.key, "label": strings.SplitN(rr.key, " ", 2)[0]})
 		}
 	}
 	res["steps"] = steps
